@@ -13,7 +13,7 @@ LEVEL = 'fault_enumeration'
 VARIANT = 'plain'
 TOOLS = [('plain', 'abidw'), ('plain', 'abidiff'), ('plain', 'abicompat')]
 EIO = 5
-DOCS = ['tiny_v0', 'shapes_v0', 'shapes_v1', 'alias_v1', 'cxx_v1', 'libtest23', 'tu:test10', 'tu:test18', 'grp:shapes-tiny', 'grp:three']
+DOCS = ['tiny_v0', 'shapes_v0', 'shapes_v1', 'alias_v1', 'cxx_v1', 'libtest23', 'ktree_v1', 'tu:test10', 'tu:test18', 'grp:shapes-tiny', 'grp:three']     # ktree_v1: the corpus group abidw --linux-tree writes for the stand-in kernel tree
 TU_DOCS = {'tu:test10': 'tests/data/test-read-write/test10.xml', 'tu:test18': 'tests/data/test-read-write/test18.xml',   # abi-instr (translation unit) documents
            'grp:shapes-tiny': '@DATA@/abixml/group-shapes-tiny.xml', 'grp:three': '@GEN@'}   # abi-corpus-group documents (abidw only writes them for kernels)
 ASSUMPTIONS = ['"cannot be loaded" is decided by libxml2\'s DOM parser run by the harness (not by libabigail): not well-formed up to the root end tag, '
@@ -64,7 +64,7 @@ def make_items(ctx, only=None):
     def doc(name):
         key = ('doc', name)
         if key not in ctx.memo:
-            t, _ = c36.template('abidw', 'stdout', libs[name])
+            t = abidw_template(ctx, libs, name)
             o = ctx.run('abidw', t)
             if o.klass != ('exit', 0) or not o.stdout:
                 raise C.InfraError('could not produce the workload document for %s' % name)
@@ -102,7 +102,7 @@ def make_items(ctx, only=None):
         body = open(p, 'rb').read()
         if not loadable(body):
             raise C.InfraError('the intact workload document %s is not loadable according to the judge' % name)
-        it = {'name': name, 'doc': p, 'body': body, 'elf': libs[name], 'W': ref.res['simf']['objects'][0]['writes'],
+        it = {'name': name, 'doc': p, 'body': body, 'elf': libs[name] if name in libs else libs['shapes_v0'], 'W': ref.res['simf']['objects'][0]['writes'],
               'app': ctx.libs['app'], 'other': doc('shapes_v1' if name != 'shapes_v1' else 'shapes_v0')[0]}
         # fault-free reads of the intact document by each restart command: number of read calls on it
         o = ctx.run('abidiff', restart_template(it, 'abidiff-dmg-intact', p, track=True))
@@ -111,6 +111,12 @@ def make_items(ctx, only=None):
             raise C.InfraError('abidiff of intact %s against itself is not clean (exit %s)' % (name, o.exit))
         items[name] = it
     return items
+
+
+def abidw_template(ctx, libs, name):
+    if name.startswith('ktree'):
+        return {'argv': ['abidw', '--linux-tree', ctx.libs[name]], 'simf': {'objects': [{'fd': 1}], 'faults': []}}
+    return c36.template('abidw', 'stdout', libs[name])[0]
 
 
 def restart_template(it, cmd, dmg, track=False, faults=None):
@@ -219,7 +225,7 @@ def execute(ctx, it, p):
     faults = None
     step1 = None
     if src == 'crash':
-        t, _ = c36.template('abidw', 'stdout', it['elf'])
+        t = abidw_template(ctx, {it['name']: it['elf']}, it['name'])
         t['simf']['faults'] = [{'obj': 0, 'op': 'write', 'k': p['k'], 'kind': 'crash', 'bytes': p['bytes']}]
         o1 = ctx.run('abidw', t)
         if not o1.res.get('simf', {}).get('crashed'):
